@@ -145,12 +145,31 @@ count_form!(c15_rrc, FETCH_WORD, 0x40, 0x03, c01_rrc, 2, 1);
 count_form!(c15_inc, FETCH_WORD, 0x44, 0x03, c01_inc, 2, 1);
 count_form!(c15_tst, FETCH_WORD, 0x48, 0x03, c01_tst, 2, 1);
 count_form!(c15_dec, FETCH_WORD, 0x50, 0x03, c01_dec, 2, 1);
-count_form!(c15_add, FETCH_WORD, 0x64, 0x03, c01_add_s1, 2, 1);
-count_form!(c15_adc, FETCH_WORD, 0x78, 0x03, c01_adc_s2, 2, 1);
-count_form!(c15_sub, FETCH_WORD, 0x80, 0x03, c01_sub_s0, 4, 1);
-count_form!(c15_and, FETCH_WORD, 0x9C, 0x03, c01_and_s3, 7, 1);
-count_form!(c15_or, FETCH_WORD, 0xA4, 0x03, c01_or_s1, 5, 1);
-count_form!(c15_xor, FETCH_WORD, 0xD8, 0x03, c01_xor_s2, 8, 1);
+// two-register ALU group: every source-register field (it selects one of four entry words)
+count_form!(c15_add_s0, FETCH_WORD, 0x60, 0x03, c01_add_s0, 2, 1);
+count_form!(c15_add_s1, FETCH_WORD, 0x64, 0x03, c01_add_s1, 2, 1);
+count_form!(c15_add_s2, FETCH_WORD, 0x68, 0x03, c01_add_s2, 2, 1);
+count_form!(c15_add_s3, FETCH_WORD, 0x6C, 0x03, c01_add_s3, 2, 1);
+count_form!(c15_adc_s0, FETCH_WORD, 0x70, 0x03, c01_adc_s0, 2, 1);
+count_form!(c15_adc_s1, FETCH_WORD, 0x74, 0x03, c01_adc_s1, 2, 1);
+count_form!(c15_adc_s2, FETCH_WORD, 0x78, 0x03, c01_adc_s2, 2, 1);
+count_form!(c15_adc_s3, FETCH_WORD, 0x7C, 0x03, c01_adc_s3, 2, 1);
+count_form!(c15_sub_s0, FETCH_WORD, 0x80, 0x03, c01_sub_s0, 4, 1);
+count_form!(c15_sub_s1, FETCH_WORD, 0x84, 0x03, c01_sub_s1, 4, 1);
+count_form!(c15_sub_s2, FETCH_WORD, 0x88, 0x03, c01_sub_s2, 4, 1);
+count_form!(c15_sub_s3, FETCH_WORD, 0x8C, 0x03, c01_sub_s3, 4, 1);
+count_form!(c15_and_s0, FETCH_WORD, 0x90, 0x03, c01_and_s0, 7, 1);
+count_form!(c15_and_s1, FETCH_WORD, 0x94, 0x03, c01_and_s1, 7, 1);
+count_form!(c15_and_s2, FETCH_WORD, 0x98, 0x03, c01_and_s2, 7, 1);
+count_form!(c15_and_s3, FETCH_WORD, 0x9C, 0x03, c01_and_s3, 7, 1);
+count_form!(c15_or_s0, FETCH_WORD, 0xA0, 0x03, c01_or_s0, 5, 1);
+count_form!(c15_or_s1, FETCH_WORD, 0xA4, 0x03, c01_or_s1, 5, 1);
+count_form!(c15_or_s2, FETCH_WORD, 0xA8, 0x03, c01_or_s2, 5, 1);
+count_form!(c15_or_s3, FETCH_WORD, 0xAC, 0x03, c01_or_s3, 5, 1);
+count_form!(c15_xor_s0, FETCH_WORD, 0xD0, 0x03, c01_xor_s0, 8, 1);
+count_form!(c15_xor_s1, FETCH_WORD, 0xD4, 0x03, c01_xor_s1, 8, 1);
+count_form!(c15_xor_s2, FETCH_WORD, 0xD8, 0x03, c01_xor_s2, 8, 1);
+count_form!(c15_xor_s3, FETCH_WORD, 0xDC, 0x03, c01_xor_s3, 8, 1);
 count_form!(c15_src_reg, FETCH_WORD, 0xF0, 0x03, c01_src_reg, 2, 1);
 count_form!(c15_src_ind, FETCH_WORD, 0xF4, 0x03, c01_src_ind, 2, 2);
 count_form!(c15_src_inc, FETCH_WORD, 0xF8, 0x03, c01_src_inc, 3, 2);
@@ -225,7 +244,7 @@ pub(crate) fn c15_canary() {
 crate::replay_table!(verif_replay_c15;
     c15_wait_consumed, c15_wait_generated, c15_data_dependent_counts, c15_loop_words_have_no_bus_access, c15_canary,
     c15_nop, c15_clr, c15_ei, c15_di, c15_push, c15_pop, c15_pushf, c15_popf, c15_call, c15_reti, c15_com, c15_neg, c15_lsr, c15_asr,
-    c15_rrc, c15_inc, c15_tst, c15_dec, c15_add, c15_adc, c15_sub, c15_and, c15_or, c15_xor,
+    c15_rrc, c15_inc, c15_tst, c15_dec, c15_add_s0, c15_add_s1, c15_add_s2, c15_add_s3, c15_adc_s0, c15_adc_s1, c15_adc_s2, c15_adc_s3, c15_sub_s0, c15_sub_s1, c15_sub_s2, c15_sub_s3, c15_and_s0, c15_and_s1, c15_and_s2, c15_and_s3, c15_or_s0, c15_or_s1, c15_or_s2, c15_or_s3, c15_xor_s0, c15_xor_s1, c15_xor_s2, c15_xor_s3,
     c15_src_reg, c15_src_ind, c15_src_inc, c15_src_dinc, c15_mov_reg, c15_mov_ind, c15_mov_inc, c15_mov_dinc,
     c15_cmp_reg, c15_cmp_ind, c15_cmp_inc, c15_cmp_dinc, c15_bitt_reg, c15_bitt_ind, c15_bitt_inc, c15_bitt_dinc, c15_ldsp, c15_ldfr,
     c15_bits_reg, c15_bits_ind, c15_bits_inc, c15_bits_dinc, c15_bitc_reg, c15_bitc_ind, c15_bitc_inc, c15_bitc_dinc,
